@@ -93,6 +93,13 @@ def suite_solve(ctx, case):
     sd = case['sys']
     s = G.build_system(sd); p = s.createPRISM()
     guess = np.array(case['guess'], dtype=float) if case.get('guess') is not None else None
+    for b in case.get('before', []):
+        # the object is inspected BEFORE it is solved (g(r) of the initial state, a structure factor): nothing of that may survive the solve
+        with np.errstate(all='ignore'):
+            if b == 'pc': pyPRISM.calculate.pair_correlation(p)
+            elif b == 'pmf': pyPRISM.calculate.pmf(p)
+            elif b == 'sf': pyPRISM.calculate.structure_factor(p)
+            elif b == 'partial': C01.solve_quiet(p, guess, case['method'], maxiter=2); pyPRISM.calculate.pair_correlation(p)
     res = C01.solve_quiet(p, guess, case['method'])
     if isinstance(res, Exception) or not getattr(res, 'success', False):
         ctx.dist['solve:not-converged:' + case['method']] += 1; return
@@ -198,6 +205,6 @@ def generate(ctx):
         sd = C01.gen_solvable(rng, maxn=ctx.n(2, 3), maxL=ctx.n(32, 64))
         m = methods[q % len(methods)]
         case = {'sys': sd, 'method': m, 'guess': None if rng.random() < 0.7 else G.gen_x(rng, sd, 'small'),
-                'pre': rng.choice([[], ['sf'], ['b2', 'sf'], ['pmf'], ['sf', 'pmf']])}
-        ctx.case('solve', case, True, tags=['method:' + m, 'rank:%d' % sd['n'], 'pre:' + '+'.join(case['pre'])])
+                'pre': rng.choice([[], ['sf'], ['b2', 'sf'], ['pmf'], ['sf', 'pmf']]), 'before': rng.choice([[], [], ['pc'], ['pmf'], ['sf', 'pc'], ['partial']])}
+        ctx.case('solve', case, True, tags=['method:' + m, 'rank:%d' % sd['n'], 'pre:' + '+'.join(case['pre']), 'before:' + '+'.join(case['before'])])
         suite_solve(ctx, case)
